@@ -104,7 +104,12 @@ func (s *c18State) nt(situation, recipient string) {
 func nfValidJSON(s string) bool { return json.Valid([]byte(s)) }
 
 func nfFromChain(n ntypes.Notification) nfEntry {
-	return nfEntry{To: n.To, From: n.From, Time: n.Time, Contents: n.Contents, Private: string(n.PrivateContents)}
+	// the sender is an account: its upper-case spelling and its canonical spelling name the same sender
+	from := n.From
+	if a, err := sdk.AccAddressFromBech32(from); err == nil {
+		from = a.String()
+	}
+	return nfEntry{To: n.To, From: from, Time: n.Time, Contents: n.Contents, Private: string(n.PrivateContents)}
 }
 
 func (s *c18State) isPhantom(e nfEntry) bool {
@@ -368,8 +373,13 @@ func (s *c18State) send(i int, to, contents string, private []byte, situation st
 	if resolvable {
 		blkA, blkB = m.blocked(r, x)
 	}
-	desc := fmt.Sprintf("create to=%q contents=%q private=%x [model: resolves to %s, blocked(A=%v,B=%v)]", to, contents, private, s.who(r), blkA, blkB)
-	res, ok := s.deliver(i, desc, false, &ntypes.MsgCreateNotification{Creator: x, To: to, Contents: contents, PrivateContents: private})
+	// the same account may spell its own address in upper case (valid bech32, same signer): identity is the account, not the spelling
+	xs := x
+	if s.rc.Chance(0.15) {
+		xs = strings.ToUpper(x)
+	}
+	desc := fmt.Sprintf("create creator=%s to=%q contents=%q private=%x [model: resolves to %s, blocked(A=%v,B=%v)]", spelling(xs, x), to, contents, private, s.who(r), blkA, blkB)
+	res, ok := s.deliver(i, desc, false, &ntypes.MsgCreateNotification{Creator: xs, To: to, Contents: contents, PrivateContents: private})
 	if !ok {
 		return false
 	}
@@ -797,4 +807,11 @@ func runC18(rc *RunCtx) {
 		total += len(in)
 	}
 	rc.Sample(map[string]interface{}{"steps": steps, "entries_in_model_at_end": total, "names": len(s.m.names), "trace_head": nfHead(rc.Trace(), 16)})
+}
+
+func spelling(used, canonical string) string {
+	if used == canonical {
+		return "canonical"
+	}
+	return "UPPER-CASE"
 }
